@@ -28,6 +28,7 @@ def suite_hist(ctx):
         impl.append(out)
         std, ust = hcfg.std, hcfg.ust
         accepted = False
+        last = (None, None)                     # the timing in force after the previous step
         for st, m in zip(tr.steps, meta):
             op = st['op']
             if op[0] == 'std':
@@ -35,7 +36,14 @@ def suite_hist(ctx):
             elif op[0] == 'ust':
                 ust = op[1]
             if op[0] not in ('call', 'unlock'):
+                # configuration changes, block entries / exits, stray frames: none of them is a session change
+                if st.get('after') is not None:
+                    if st['after']['timing'] != last:
+                        s.fail({'site': 'session timing', 'input': line, 'op': hist.op_str(op), 'observed': 'timing changed from %s to %s' % (last, st['after']['timing']),
+                                'required': 'unchanged: only an accepted session change adopts (or replaces) server timing'})
+                    last = st['after']['timing']
                 continue
+            last = st['after']['timing']
             b, a = st['before']['timing'], st['after']['timing']
             rec = {'site': 'session timing', 'input': line, 'op': hist.op_str(op), 'std': std, 'use_server_timing': ust}
             if op[0] == 'call' and op[1][0] == 'cs' and st['verdict'] == 'ok' and std > 2006 and ust:
@@ -99,6 +107,9 @@ def suite_pairs(ctx):
                         continue
                     if kind in ('neg', 'badecho') and verdict == 'ok':
                         s.fail(dict(rec, observed='accepted', required='rejected'))
+                    if kind in ('short', 'long') and std >= 2013 and verdict == 'ok':
+                        s.fail(dict(rec, observed='accepted, timing %s' % (got,), required='invalid response: from the 2013 edition on the reply carries exactly the four timing bytes; nothing is adopted'))
+                        continue
                     if got != want:
                         s.fail(dict(rec, observed=str(got), required=str(want)))
                         continue
